@@ -126,7 +126,36 @@ def build():
                       f"result == {D} or result == 400", "result >= 0"],
              note="at most 3 triggers, each >= 60 ms after the previous one (recorded timestamp non-zero); falls back to last good / 400")
     _B["info"] = {k: {"sha": v["sha"], "prims": v["prims"], "externs": v["externs"]} for k, v in info.items()}
+    _B["replay"] = {v["pyname"]: (v, specs[k]["opaque"], specs[k].get("where", "setup")) for k, v in info.items()}
     return reg
+
+
+def replay_model(o):
+    """replay a counterexample of the poll fragment on the really emitted C++ (cxxvc/fwreplay.py); the sampled level comes from the
+    model's ghost `next_in` through the mock's scripted digital input"""
+    import os
+    from cxxvc import fwreplay
+    from pyvc import loader
+    unit = o["name"].split("/")[1].split("[")[0]
+    if unit not in _B.get("replay", {}):
+        return None
+    tr, opaque, where = _B["replay"][unit]
+    model = o.get("model") or {}
+    nxt = (model.get("$ghost") or {}).get("next_in")
+    saved = os.environ.get("FWSIM_DIGITAL")
+    os.environ["FWSIM_DIGITAL"] = "1" if nxt else "0"
+    try:
+        reg = build()
+        mods = loader.load(sorted({f for (f, _) in reg.contracts if f != "<extern>"}))
+        if nxt is not None:
+            c = reg.lookup(FW, unit)
+            c.requires = list(c.requires) + [f"next_in == {'True' if nxt else 'False'}"]
+        return fwreplay.replay(reg, mods, FW, unit, tr, opaque, where, model, o["name"], engine_setup=engine_setup, compare_events=False)
+    finally:
+        if saved is None:
+            os.environ.pop("FWSIM_DIGITAL", None)
+        else:
+            os.environ["FWSIM_DIGITAL"] = saved
 
 
 def extra_obligations(mods, tier, seed):
@@ -177,6 +206,18 @@ def extra_obligations(mods, tier, seed):
                 if not o["name"].endswith("/mustfail"):
                     out.append({"name": o["name"], "status": o["status"], "backend": o.get("backend") or "z3", "where": o.get("where"), "time": o.get("time", 0.0),
                                 "model": o.get("model"), "reason": o.get("reason")})
+    # every read()/measure_distance() call in the source is one read on the device, also when the same call is repeated in one statement
+    src3 = ("from Reduino.Sensors import Potentiometer, Ultrasonic\nfrom Reduino.Communication import SerialMonitor\nm = SerialMonitor(9600)\n"
+            "p = Potentiometer(\"A1\")\nu = Ultrasonic(7, 8)\nwhile True:\n    lo, hi = p.read(), p.read()\n    d1, d2 = u.measure_distance(), u.measure_distance()\n"
+            "    s = p.read() + p.read()\n    m.write(lo + hi + s)\n    m.write(d1 + d2)\n")
+    try:
+        cpp3 = E.emit(P.parse(src3))
+        loop3 = cpp3[cpp3.index("void loop()"):]
+        n_ar3 = len(re.findall(r"analogRead\(A1\)", loop3))
+        n_us3 = len(re.findall(r"__redu_ultrasonic_measure_u\(\)", loop3))
+        checks.append(("repeated-sensor-calls-are-separate-reads", n_ar3 == 4 and n_us3 == 2, f"loop(): {n_ar3} analogRead(A1) for four read() calls, {n_us3} measurements for two measure_distance() calls"))
+    except Exception as ex:
+        checks.append(("repeated-sensor-calls-are-separate-reads", False, f"{type(ex).__name__}: {ex}"))
     for name, ok, where in checks:
         out.append({"name": f"C15/arms/{name}", "status": "discharged" if ok else "sat", "backend": "enum", "where": where,
                     "time": round(time.time() - t0, 3), "replay": {"source": src, "loop": loop[:600]}, "replay_confirmed": not ok})
